@@ -22,7 +22,7 @@ pub open spec fn only_tracker(o: World, n: World) -> bool {
 //@path std::thread::sleep => shim_sleep
 //@path std::time::Duration::from_millis => shim_millis
 //@guards .get_writer( param:journal_writer
-//@world is_deleted.load drop writer.lock tree.flush tree.compact tree.major_compact tree.rotate_memtable inner.finish
+//@world is_deleted.load drop writer.lock tree.flush tree.compact tree.major_compact tree.rotate_memtable inner.finish snapshot_tracker.get
 
 pub struct Task { pub keyspace: Keyspace }                     // src/flush/task.rs (fields)
 pub struct Stats { pub active_compaction_count: StatCounter, pub time_compacting: StatCounter, pub compactions_completed: StatCounter }
@@ -47,6 +47,10 @@ impl WriteBufferManager {
 
 //@extract src/snapshot_tracker.rs :: SnapshotTracker :: get_seqno_safe_to_gc world spec_only
 //@contract-file fn/tracker_get_safe.c
+//@end
+
+//@extract src/snapshot_tracker.rs :: SnapshotTracker :: get world spec_only
+//@contract-file fn/tracker_get.c
 //@end
 
 //@extract src/flush/worker.rs :: run as=flush_run world props=C01+C05+C06
